@@ -859,6 +859,12 @@ class Driver:
                 conv = {fl2.get("r") for e2, fl2, _ in ev if e2 in self.size_eids}
 
                 def same_value(a_):
+                    if t0["k"] == "bool":
+                        # K(bool) takes the truth value of whatever was passed
+                        try:
+                            return fl.get("a0") == "u%d" % int(bool(a_.py()))
+                        except Exception:     # noqa
+                            return False
                     if a_.c == "obj":
                         return fl.get("a0") in conv      # the instance's own __float__ / __int__ result
                     if a_.c in ("tuple", "junk", "none"):
